@@ -345,7 +345,10 @@ class Tie:
             ctext += ["# case %s" % s["id"], "content_file %s" % s["xpath"], "cinit %d %d %d" % (s["level"], s["cf"], s["mfs"])]
             if s["mfs"] <= (1 << 30):
                 ctext += s["ops"] + ["finish %d %d" % (s["ccap"], s["scap"]), "log", "save %s" % s["apath"], "frames", "regular"]
+        import time as _t
+        t0 = _t.time()
         rc, clines, cerr = self.run_c("\n".join(ctext) + "\n")
+        core.log("C20   compress (real code): %.1fs" % (_t.time() - t0))
         if rc != 0:
             self.report(dict(kind="compress", rc=rc, stderr=cerr[-2000:]), "harness crashed while compressing (rc=%d)" % rc, no_input=True)
             return
@@ -364,7 +367,9 @@ class Tie:
                 elif cmd == "s":
                     mtext.append("s %s %s" % (d["cap"], d["tr"]))
             mtext.append("clog")
+        t0 = _t.time()
         mlines = self.run_m("\n".join(mtext) + "\n")
+        core.log("C20   compress (model replay): %.1fs" % (_t.time() - t0))
         ms = self.sections(mlines)
         good = []
         for s in specs:
@@ -583,7 +588,7 @@ class Tie:
         the history that leads to it; the archives after it are re-run in a fresh process.  Returns {id: lines}."""
         ctx = self.ctx
         todo, cs, strikes = list(specs), {}, 0
-        tmo = 90 if ctx.quick else 600
+        tmo = 45 if ctx.quick else 600
         while todo:
             ctext = []
             for s in todo:
@@ -598,7 +603,29 @@ class Tie:
             done = sec.get(bad["id"], [])
             nrd = sum(1 for l in done if l.split()[0] in ("r", "rf"))
             stage_done = any(l.startswith("o2f") for l in done)
-            how = ("does not return (no result within %d s for the whole batch)" % tmo) if rc == 124 else \
+            i = todo.index(bad)
+            for s in todo[:i]:
+                cs[s["id"]] = sec.get(s["id"], [])
+            if rc == 124:
+                # confirm on this archive alone (a loaded machine must not turn into a false alarm): history up to the suspect call
+                keep = bad["reads"]
+                bad["reads"] = keep[:nrd + 1]
+                rc2, cl2, _ = self.run_c("\n".join(self.reads_ctext(bad)) + "\n", timeout=20 if ctx.quick else 60, linebuf=True)
+                bad["reads"] = keep
+                if rc2 == 0:
+                    core.log("C20: read batch exceeded %d s but the suspect call returns when run alone: machine load, retrying" % tmo)
+                    todo = todo[i:]
+                    tmo *= 3
+                    strikes += 1
+                    if strikes >= 3:
+                        self.report(dict(kind="reads", rc=rc), "the read batch does not finish although every suspect call returns when run alone", no_input=True)
+                        for s in todo:
+                            s["dead"] = True
+                        break
+                    continue
+                tmo_txt = "%d s" % (20 if ctx.quick else 60)
+            todo = todo[i + 1:]
+            how = ("does not return (no result within %s when this history is run alone)" % tmo_txt) if rc == 124 else \
                   "crashes the process (rc=%d): %s" % (rc, (cerr.strip().split("\n") or ["?"])[-1][:200])
             if stage_done and nrd < len(bad["reads"]):
                 rd = bad["reads"][nrd]
@@ -611,13 +638,9 @@ class Tie:
                             "opening / querying the seek table of an archive the seekable compressor wrote (%s access, %d frames) %s; last completed: %s"
                             % (bad["mode"], len(bad["log"]), how, (done[-1][:160] if done else "-")))
             bad["dead"] = True
-            i = todo.index(bad)
-            for s in todo[:i]:
-                cs[s["id"]] = sec.get(s["id"], [])
-            todo = todo[i + 1:]
             strikes += 1
-            if strikes >= 2 and todo:
-                core.log("C20: %d archives not read after two hangs/crashes" % len(todo))
+            if (rc == 124 or strikes >= 2) and todo:
+                core.log("C20: %d archives not read after a hang / two crashes" % len(todo))
                 for s in todo:
                     s["dead"] = True
                 break
@@ -630,7 +653,10 @@ class Tie:
             s["mode"] = modes[j % 3] if len(s["x"]) > 9 else rng.choice(modes)
             s["reads"] = self.gen_reads(s)
             s["o2f"] = self.o2f_positions(s)
+        import time as _t
+        t0 = _t.time()
         cs = self.run_reads_c(specs)
+        core.log("C20   reads (real code): %.1fs" % (_t.time() - t0))
         specs = [s for s in specs if not s.get("dead")]
         model_max = 140000 if ctx.quick else 400000
         mtext = []
@@ -654,7 +680,9 @@ class Tie:
                         orc = ";".join("%s:%s" % (t.split(":")[3], "1" if t.split(":")[5] == "1" else "0")
                                        for t in d["tr"].split(";") if t[0] in "kd")
                         mtext.append("%s %s %s %s" % (cmd, pos[0], pos[1], orc or "-"))
+        t0 = _t.time()
         mlines = self.run_m("\n".join(mtext) + "\n")
+        core.log("C20   reads (model replay): %.1fs" % (_t.time() - t0))
         ms = self.sections(mlines)
         for s in specs:
             self.compare_reads(s, cs.get(s["id"], []), ms.get(s["id"], []))
@@ -915,7 +943,7 @@ class Tie:
                 rds += [("r", 0, min(tot, 70000)), ("r", rng.randint(0, min(tot, 1 << 20)), 100), ("rf", 0, 70000), ("rf", max(len(v["log"]) - 1, 0), 10)]
             v["reads"] = rds
         todo = list(variants)
-        while todo:
+        while todo and self.nviol < MAX_VIOL:
             g, todo = todo[:12], todo[12:]
             bad = self.run_corrupt_group(g, exe)
             if bad is not None:
